@@ -188,6 +188,9 @@ def install_text_models() -> None:
     # M9/M4: << | & on symbolic ints as guarded arithmetic, str.encode as UTF-8 arithmetic, so that the *real*
     # _parse_hex_digits / _decode_hex_char run symbolically
     chpatches.install_bitwise()
+    # M5: json.dumps(name, ensure_ascii=False) in serialize.canonical_string
+    chpatches.install_json_dumps()
+    chpatches.install_fstring_str()
     # number literals: float("<digits>") in IEEE-precise mode makes z3 answer unknown; the real-valued model is
     # exact for the digit strings the lexer passes (counterexamples are replayed on real floats anyway)
     chpatches.use_real_floats()
